@@ -551,6 +551,9 @@ register(
               ("eq_nested", 1, gen_c05(56, ("sync", "async", "pure"), p_choose=0.15, p_pure=0.1, p_enq=0.1)),
               ("eq_history", 2, gen_c05(53, ("sync", "async", "async2", "pure"), p_history=0.5, w_target={"history": 6})),
               ("eq_services", 2, gen_c05(54, ("sync", "async", "async2"), p_invoke=0.3, svc_kinds=("sync",), p_raise=0.1)),
+              # the pure functions "start no timer, service or actor": machines full of invokes (callables and child machines),
+              # delays and spawn actions, walked through the pure API only
+              ("pure_starts_nothing", 1, gen_c05(57, ("pure",), p_invoke=0.5, svc_kinds=("sync", "machine"), p_after=0.4, p_raise=0.1)),
               ("eq_hist_parallel", 1, gen_c05(55, ("sync", "async"), hist_parallel=True, p_parallel=0.4, p_history=0.4, p_raise=0.1,
                                               p_choose=0.1, p_enq=0.1))],
     runner=O.run_c05,
